@@ -152,16 +152,34 @@ def clockField : Cmd → Option Nat
 def clocksOk (f : Bytes) (cs : List (Nat × Cmd)) : Prop :=
   ∀ p ∈ cs, ∀ off, clockField p.2 = some off → field32 f off ≠ 0
 
-/-- the data bank a DAC stream reads: the data of all type-`bank` blocks, in order -/
-def bankBytes (bank : UInt8) : List (Nat × Cmd) → Bytes
-  | [] => []
-  | (_, .dataBlock t d) :: r => if t = bank then d ++ bankBytes bank r else bankBytes bank r
-  | _ :: r => bankBytes bank r
+/-- DAC stream commands against data bank 0 (= the data of the type-0 blocks read so far, in
+order): every stream start uses length mode 1 (bytes) and addresses bytes that are already
+in the bank when the command is reached -/
+def pcmScan : Nat → List (Nat × Cmd) → Bool
+  | _, [] => true
+  | bank, (_, .dataBlock t d) :: r => pcmScan (if t = 0 then bank + d.length else bank) r
+  | bank, (_, .dacStart _ st m len) :: r => decide (m.toNat = 1) && decide (st + len ≤ bank) && pcmScan bank r
+  | bank, (_, .chip _ _) :: r => pcmScan bank r
+  | bank, (_, .wait _) :: r => pcmScan bank r
+  | bank, (_, .dacSetup _ _ _ _) :: r => pcmScan bank r
+  | bank, (_, .dacData _ _ _ _) :: r => pcmScan bank r
+  | bank, (_, .dacFreq _ _) :: r => pcmScan bank r
+  | bank, (_, .dacStop _) :: r => pcmScan bank r
+  | bank, (_, .endMark) :: r => pcmScan bank r
 
-/-- every stream start (length mode 1 = bytes) addresses bytes inside bank 0 -/
-def pcmOk (cs : List (Nat × Cmd)) : Prop :=
-  ∀ p ∈ cs, ∀ sid st m len, p.2 = .dacStart sid st m len →
-    m.toNat = 1 ∧ st + len ≤ (bankBytes 0 cs).length
+def pcmOk (cs : List (Nat × Cmd)) : Prop := pcmScan 0 cs = true
+
+/-- contents of data bank 0 once every block is loaded -/
+def bankOf : List (Nat × Cmd) → Bytes
+  | [] => []
+  | (_, .dataBlock t d) :: r => if t = 0 then d ++ bankOf r else bankOf r
+  | _ :: r => bankOf r
+
+/-- the byte windows the stream-start commands address -/
+def streamWindows (cs : List (Nat × Cmd)) : List Bytes :=
+  cs.filterMap fun p => match p.2 with
+    | .dacStart _ st _ len => some (((bankOf cs).drop st).take len)
+    | _ => none
 
 /-! ### GD3 -/
 
@@ -281,13 +299,7 @@ def analyse (f : Bytes) : Except String Info := do
     match clockField p.2 with
     | some off => if field32 f off = 0 then throw s!"chip clock at header {off} not declared"
     | none => pure ()
-  for p in cs do
-    match p.2 with
-    | .dacStart _ st m len =>
-      if m.toNat != 1 then throw "stream length mode"
-      if st + len > (bankBytes 0 cs).length then
-        throw s!"stream {st}+{len} outside data bank of {(bankBytes 0 cs).length} bytes"
-    | _ => pure ()
+  if !pcmScan 0 cs then throw "stream start outside the data bank loaded so far (or length mode not bytes)"
   if field32 f 0x14 = 0 then
     if tail.isEmpty then pure { cmds := cs, strs := [], total := waits cs, loopIdx := loopIdx }
     else throw "bytes after the end marker without GD3 offset"
